@@ -339,7 +339,7 @@ def part_named_ranges(ctx, res):
         if r.random() < 0.4:  # near-miss decoy: the other table's name contains / extends the first
             n2 = n1 + r.choice([" 2", "x", "_b"])
         res.judge()
-        res.cls(("rename", name_class(n1), name_class(n3), "decoy-superstring" if n2.startswith(n1) else "decoy-other"), True)
+        res.cls(("rename", name_class(n1), name_class(n3), "decoy-superstring" if n2.startswith(n1) else "decoy-other", "scope-drawn" if d % 5 < 2 else ""), True)
         case = {"kind": "rename", "names": [n1, n2, n3]}
         try:
             doc = Document("spreadsheet")
@@ -352,6 +352,28 @@ def part_named_ranges(ctx, res):
             t1.set_named_range("first", "A1:B2")
             t2.set_named_range("second", "B1:C2")
             t1.set_named_range("third", (2, 1))
+            scope = "document"
+            if r.random() < 0.4:
+                # the way LibreOffice stores names with sheet scope: a table:named-expressions child of their table
+                scope = "sheet"
+                case["scope"] = scope
+                from lxml import etree as _et
+
+                TNS = "urn:oasis:names:tc:opendocument:xmlns:table:1.0"
+                body_n = doc.body._Element__element
+                for tbl in body_n.iter("{%s}table" % TNS):
+                    own = [e for e in body_n.iter("{%s}named-range" % TNS) if (e.get("{%s}base-cell-address" % TNS) or "").lstrip("$").startswith(("'" + tbl.get("{%s}name" % TNS).replace("'", "''") + "'.", tbl.get("{%s}name" % TNS) + "."))]
+                    if own and r.random() < 0.8:
+                        ne = _et.SubElement(tbl, "{%s}named-expressions" % TNS)
+                        for e in own:
+                            ne.append(e)
+                for ne in list(body_n.iterchildren("{%s}named-expressions" % TNS)):
+                    if len(ne) == 0:
+                        body_n.remove(ne)
+                buf = io.BytesIO()
+                doc.save(buf)
+                buf.seek(0)
+                doc = Document(buf)
             if r.random() < 0.5:
                 buf = io.BytesIO()
                 doc.save(buf)
